@@ -219,7 +219,7 @@ impl Live {
 }
 
 fn marker_for(path: &str) -> String {
-    let tag = if path.starts_with("root") { IN_MARK } else { OUT_MARK };
+    let tag = if path == "root" || path.starts_with("root/") { IN_MARK } else { OUT_MARK };
     format!("{tag}{path}:{:016x}>>\n", vh::digest(&path))
 }
 
@@ -287,10 +287,10 @@ fn gen_tree(r: &mut SplitMix64) -> TreeInfo {
         Node::File("root/d1/d2/c.txt".into()),
         Node::Dir("root/nested".into()),
         Node::File("root/nested/n.txt".into()),
-        Node::Dir("outside".into()),
-        Node::File("outside/secret.txt".into()),
-        Node::Dir("outside/sub".into()),
-        Node::File("outside/sub/deep.txt".into()),
+        Node::Dir("root_out".into()),
+        Node::File("root_out/secret.txt".into()),
+        Node::Dir("root_out/sub".into()),
+        Node::File("root_out/sub/deep.txt".into()),
         Node::Link("rootlink".into(), "root".into()),
     ];
     let mut t = TreeInfo {
@@ -320,28 +320,28 @@ fn gen_tree(r: &mut SplitMix64) -> TreeInfo {
         link(&mut n, &mut t, "d1/lf_up".into(), "../a.txt", 0);
     }
     if keep(r) {
-        link(&mut n, &mut t, odd_name(r, "lf_out"), "../outside/secret.txt", 0);
+        link(&mut n, &mut t, odd_name(r, "lf_out"), "../root_out/secret.txt", 0);
     }
     if keep(r) {
-        link(&mut n, &mut t, "lf_out_abs".into(), "@CASE@/outside/secret.txt", 0);
+        link(&mut n, &mut t, "lf_out_abs".into(), "@CASE@/root_out/secret.txt", 0);
     }
     if keep(r) {
-        link(&mut n, &mut t, odd_name(r, "ld_out"), "../outside", 1);
+        link(&mut n, &mut t, odd_name(r, "ld_out"), "../root_out", 1);
     }
     if keep(r) {
-        link(&mut n, &mut t, "ld_out_abs".into(), "@CASE@/outside", 1);
+        link(&mut n, &mut t, "ld_out_abs".into(), "@CASE@/root_out", 1);
     }
     if keep(r) {
-        link(&mut n, &mut t, "d1/ld_out_sub".into(), "../../outside/sub", 1);
+        link(&mut n, &mut t, "d1/ld_out_sub".into(), "../../root_out/sub", 1);
     }
     if keep(r) {
-        link(&mut n, &mut t, odd_name(r, "dangling_out"), "../outside/newfile.txt", 0);
+        link(&mut n, &mut t, odd_name(r, "dangling_out"), "../root_out/newfile.txt", 0);
     }
     if keep(r) {
-        link(&mut n, &mut t, "dangling_out_abs".into(), "@CASE@/outside/newfile_abs.txt", 0);
+        link(&mut n, &mut t, "dangling_out_abs".into(), "@CASE@/root_out/newfile_abs.txt", 0);
     }
     if keep(r) {
-        link(&mut n, &mut t, "dangling_out_dir".into(), "../outside/newdir", 0);
+        link(&mut n, &mut t, "dangling_out_dir".into(), "../root_out/newdir", 0);
     }
     if keep(r) {
         link(&mut n, &mut t, "dangling_in".into(), "missing.txt", 0);
@@ -359,13 +359,13 @@ fn gen_tree(r: &mut SplitMix64) -> TreeInfo {
         link(&mut n, &mut t, "selfloop".into(), "selfloop", 0);
     }
     if keep(r) {
-        link(&mut n, &mut t, "nested/ln_out".into(), "../../outside/secret.txt", 0);
+        link(&mut n, &mut t, "nested/ln_out".into(), "../../root_out/secret.txt", 0);
     }
     // chains c<k>_1 -> c<k>_2 -> … -> final
     for (k, fin, kind) in [
-        (0, "../outside", 1u8),
-        (1, "../outside/secret.txt", 0),
-        (2, "../outside/chain_new.txt", 0),
+        (0, "../root_out", 1u8),
+        (1, "../root_out/secret.txt", 0),
+        (2, "../root_out/chain_new.txt", 0),
         (3, "a.txt", 0),
         (4, "d1", 2),
     ] {
@@ -403,13 +403,13 @@ fn gen_target(r: &mut SplitMix64, t: &TreeInfo) -> (String, &'static str) {
             }),
             10 | 11 => Some((
                 [
-                    "../outside/secret.txt",
-                    "../outside/sub/deep.txt",
-                    "../outside/dotdot_new.txt",
-                    "../outside",
+                    "../root_out/secret.txt",
+                    "../root_out/sub/deep.txt",
+                    "../root_out/dotdot_new.txt",
+                    "../root_out",
                     "..",
                     "../..",
-                    "../../@CASENAME@/outside/secret.txt",
+                    "../../@CASENAME@/root_out/secret.txt",
                     "../rootlink/a.txt",
                 ][r.usize(8)]
                 .to_string(),
@@ -417,10 +417,10 @@ fn gen_target(r: &mut SplitMix64, t: &TreeInfo) -> (String, &'static str) {
             )),
             12 => Some((
                 [
-                    "parent/outside/secret.txt",
-                    "d1/upup/outside/secret.txt",
-                    "d1/upup/outside/via_upup.txt",
-                    "parent/outside/via_parent.txt",
+                    "parent/root_out/secret.txt",
+                    "d1/upup/root_out/secret.txt",
+                    "d1/upup/root_out/via_upup.txt",
+                    "parent/root_out/via_parent.txt",
                     "parent/root/a.txt",
                     "d1/up/a.txt",
                     "d1/up/d1/up/a.txt",
@@ -434,28 +434,28 @@ fn gen_target(r: &mut SplitMix64, t: &TreeInfo) -> (String, &'static str) {
                 } else {
                     r.pick(&t.dir_links_in).clone()
                 };
-                let tail = ["..", "../outside/secret.txt", "../../outside/secret.txt", "../a.txt", "../secret.txt"][r.usize(5)];
+                let tail = ["..", "../root_out/secret.txt", "../../root_out/secret.txt", "../a.txt", "../secret.txt"][r.usize(5)];
                 (format!("{l}/{tail}"), "symlink-then-dotdot")
             }),
             14 | 15 => Some((
                 [
-                    "@CASE@/outside/secret.txt",
-                    "@CASE@/outside/abs_new.txt",
+                    "@CASE@/root_out/secret.txt",
+                    "@CASE@/root_out/abs_new.txt",
                     "@CASE@/root/a.txt",
-                    "/@CASE@/outside/secret.txt",
-                    "//@CASE@/outside/secret.txt",
-                    "file://@CASE@/outside/secret.txt",
+                    "/@CASE@/root_out/secret.txt",
+                    "//@CASE@/root_out/secret.txt",
+                    "file://@CASE@/root_out/secret.txt",
                 ][r.usize(6)]
                 .to_string(),
                 "absolute",
             )),
             16 => Some((
-                ["", ".", "/", "~", " ", "./", "a.txt/", "a.txt/.", "a.txt/..", "self#jumbf=../outside/secret.txt"][r.usize(10)]
+                ["", ".", "/", "~", " ", "./", "a.txt/", "a.txt/.", "a.txt/..", "self#jumbf=../root_out/secret.txt"][r.usize(10)]
                     .to_string(),
                 "degenerate",
             )),
             17 => Some((
-                ["nope/../../outside/secret.txt", "d1/../../outside/secret.txt", "d1/d2/../../../outside/secret.txt", "d1/../a.txt"]
+                ["nope/../../root_out/secret.txt", "d1/../../root_out/secret.txt", "d1/d2/../../../root_out/secret.txt", "d1/../a.txt"]
                     [r.usize(4)]
                 .to_string(),
                 "inner-dotdot",
@@ -523,7 +523,7 @@ fn gen_case(r: &mut SplitMix64, family: &str) -> Case {
         "builder" => (r.pick(&BUILDER_OPS).to_string(), ["sign", "sign", "archive"][r.usize(3)].to_string()),
         "zip" => (
             "zip_import".to_string(),
-            ["resources/", "manifests/", "ingredients/0/", "", "resources/x/", "@CASE@/outside/", "@CWDREL@/outside/", "../"][r.usize(8)]
+            ["resources/", "manifests/", "ingredients/0/", "", "resources/x/", "@CASE@/root_out/", "@CWDREL@/root_out/", "../"][r.usize(8)]
                 .to_string(),
         ),
         _ => unreachable!(),
@@ -538,10 +538,10 @@ fn gen_to_folder(r: &mut SplitMix64) -> Case {
     let mut tree = vec![
         Node::Dir("root".into()),
         Node::File("root/a.txt".into()),
-        Node::Dir("outside".into()),
-        Node::File("outside/secret.txt".into()),
-        Node::File("outside/manifest_store.json".into()),
-        Node::Dir("outside/sub".into()),
+        Node::Dir("root_out".into()),
+        Node::File("root_out/secret.txt".into()),
+        Node::File("root_out/manifest_store.json".into()),
+        Node::Dir("root_out/sub".into()),
     ];
     let layout = ["absent", "empty", "nested-missing", "symlinked-out", "planted-file-link", "planted-dangling-link", "planted-dir-link", "planted-assertions-link"]
         [r.usize(8)];
@@ -554,39 +554,39 @@ fn gen_to_folder(r: &mut SplitMix64) -> Case {
         }
         "planted-file-link" => {
             tree.push(Node::Dir("out".into()));
-            tree.push(Node::Link("out/manifest_store.json".into(), "../outside/secret.txt".into()));
+            tree.push(Node::Link("out/manifest_store.json".into(), "../root_out/secret.txt".into()));
         }
         "planted-dangling-link" => {
             tree.push(Node::Dir("out".into()));
-            tree.push(Node::Link("out/manifest_data.c2pa".into(), "../outside/planted_new.c2pa".into()));
+            tree.push(Node::Link("out/manifest_data.c2pa".into(), "../root_out/planted_new.c2pa".into()));
         }
         "planted-dir-link" => {
             tree.push(Node::Dir("out".into()));
-            tree.push(Node::Link(format!("out/{label_dir}"), "../outside/sub".into()));
+            tree.push(Node::Link(format!("out/{label_dir}"), "../root_out/sub".into()));
         }
         "planted-assertions-link" => {
             tree.push(Node::Dir(format!("out/{label_dir}")));
-            tree.push(Node::Link(format!("out/{label_dir}/c2pa.assertions"), "@CASE@/outside".into()));
+            tree.push(Node::Link(format!("out/{label_dir}/c2pa.assertions"), "@CASE@/root_out".into()));
         }
         _ => {}
     }
     let hostile = [
-        "../../outside/evil",
-        "../../../outside/evil",
-        "image/../../../../outside/evil",
-        "image/../../../outside/evil.jpg",
-        "@CASE@/outside/evil",
-        "image/@CASE@/outside/evil",
-        "..\\..\\outside\\evil",
-        "%2e%2e/%2e%2e/outside/evil",
+        "../../root_out/evil",
+        "../../../root_out/evil",
+        "image/../../../../root_out/evil",
+        "image/../../../root_out/evil.jpg",
+        "@CASE@/root_out/evil",
+        "image/@CASE@/root_out/evil",
+        "..\\..\\root_out\\evil",
+        "%2e%2e/%2e%2e/root_out/evil",
         "..",
         "image/..",
         "a/b/c",
         "image/jpeg",
         "image/png",
-        "jpeg/../../../../../outside/evil",
-        "image/./../../../../outside/evil",
-        "x:../../outside/evil",
+        "jpeg/../../../../../root_out/evil",
+        "image/./../../../../root_out/evil",
+        "x:../../root_out/evil",
     ];
     let field = ["thumb_format", "thumb_format_v1", "ingredient_thumb_format", "ingredient_thumb_format_v1", "vendor", "vendor_v1", "cgi_icon_v1", "plain"]
         [r.usize(8)];
@@ -672,14 +672,14 @@ fn toggle_outside(live: &Live, c: &Case) {
     // remove every outside sentinel file, create every dangling outside target
     for nd in &c.tree {
         match nd {
-            Node::File(p) if p.starts_with("outside") => {
+            Node::File(p) if p.starts_with("root_out") => {
                 let _ = std::fs::remove_file(live.dir.join(p));
             }
             Node::Link(p, t) if p.starts_with("root") => {
                 let t = live.subst(t);
                 let abs = if Path::new(&t).is_absolute() { PathBuf::from(&t) } else { live.dir.join(p).parent().unwrap().join(&t) };
                 if let Some(loc) = real_location(&abs) {
-                    if loc.starts_with(live.dir.join("outside")) && std::fs::symlink_metadata(&loc).is_err() {
+                    if loc.starts_with(live.dir.join("root_out")) && std::fs::symlink_metadata(&loc).is_err() {
                         let _ = std::fs::write(&loc, b"toggled");
                     }
                 }
@@ -687,7 +687,7 @@ fn toggle_outside(live: &Live, c: &Case) {
             _ => {}
         }
     }
-    let _ = std::fs::write(live.dir.join("outside/toggle_new.txt"), b"toggled");
+    let _ = std::fs::write(live.dir.join("root_out/toggle_new.txt"), b"toggled");
 }
 
 fn judge(run: &Run, c: &Case) -> CaseResult {
@@ -881,11 +881,11 @@ fn judge_live(run: &Run, c: &Case, live: &Live) -> CaseResult {
                     "claim_generator_info": [{ "name": "verif-harness", "version": "0.1" }],
                     "thumbnail": {"format": "image/jpeg", "identifier": id},
                     "instance_id": "xmp:iid:verif", "no_embed": false, "timestamp_manifest_labels": [],
-                    "base_path": live.dir.join("outside").to_string_lossy(),
-                    "resources": {"base_path": live.dir.join("outside").to_string_lossy(), "resources": {}},
+                    "base_path": live.dir.join("root_out").to_string_lossy(),
+                    "resources": {"base_path": live.dir.join("root_out").to_string_lossy(), "resources": {}},
                     "ingredients": [{"title": "i", "format": "image/jpeg", "relationship": "componentOf",
                         "thumbnail": {"format": "image/jpeg", "identifier": id},
-                        "resources": {"base_path": live.dir.join("outside").to_string_lossy()}}],
+                        "resources": {"base_path": live.dir.join("root_out").to_string_lossy()}}],
                     "assertions": [{"label": "c2pa.actions", "data": {"actions": [{"action": "c2pa.created",
                         "digitalSourceType": "http://c2pa.org/digitalsourcetype/empty"}]}}]
                 });
@@ -934,7 +934,7 @@ fn judge_live(run: &Run, c: &Case, live: &Live) -> CaseResult {
 
     if selftest() == 2 && op == "add" && anat == "plain" && oc == "ok" {
         // deliberately wrong "SDK": simulate an escaped write
-        let _ = std::fs::write(live.dir.join("outside/selftest_escape.txt"), b"x");
+        let _ = std::fs::write(live.dir.join("root_out/selftest_escape.txt"), b"x");
     }
 
     // ---- oracle 1: nothing outside root changed ----------------------------------------------------------
